@@ -446,6 +446,9 @@ def gen_world(rs: int, P: dict) -> dict:
         sc["second_life"] = {k: rl.random() < 0.6 for k in ("network", "queue", "evs", "algo")}
         if rl.random() < 0.4:
             sc["second_life"]["longer_first_life"] = rl.choice([3, 10, 25])
+        if rl.random() < 0.3 and not sc["second_life"]["network"] and len(sc["network"]["stations"]) > 1:
+            # the carried-over objects served a site whose stations were registered in another order (round 13)
+            sc["second_life"]["first_perm"] = rl.randrange(10 ** 6)
     rf2 = sub(rs, "refill")
     if P.get("refill", 0) and rf2.random() < P["refill"]:
         cuts = refill_cuts(sc)
